@@ -108,6 +108,11 @@ class SymtableCodeGen(AbstractCodeGen):
             elif len(el) == 1:
                 data.append(el[0])
 
+            elif el[0] not in self.handlersTable:
+                # the grammar takes an OID value wherever an object is
+                # named, name(number) comes as a pair
+                raise error.PySmiSemanticError('%r given where a symbol name is expected' % (el,))
+
             else:
                 data.append(self.handlersTable[el[0]](self, self.prepData(el[1:], classmode=classmode), classmode=classmode))
 
